@@ -855,6 +855,11 @@ class Summaries:
             xr = self.exact_next(ctx, st, ctx.args[0], itv)
             if xr is not None:
                 return xr
+        if ctx.callee["name"] == "next" and isinstance(itv, Agg) and itv.name == "core::iter::take" and len(itv.fields) >= 2 \
+                and isinstance(itv.fields[1], IntV) and isinstance(ctx.args[0], Ptr):
+            z = self.take_next(ctx, st, itv)
+            if z is not None:
+                return z
         if ctx.callee["name"] == "next" and isinstance(itv, Agg) and itv.name in ("core::iter::map", "core::iter::copied", "core::iter::cloned") \
                 and itv.fields and isinstance(ctx.args[0], Ptr):
             z = self.adaptor_next(ctx, st, itv)
@@ -935,6 +940,10 @@ class Summaries:
                     ex.write(st2, p.root, p.path, Agg(itv.kind, itv.name, itv.variant, g, itv.ty, itv.extra), p.pty)
                 some = ex.variant_cond(ret, 1)
                 st2.facts.assume(some * more + (ONE - some) * (ONE - more), 1)
+                # every chunk has exactly n elements
+                cl = sym_int("len(%s@Some.0)" % ret.name, ex.pbits, False)
+                st2.facts.add_conditional(some, cl - itv.fields[1].poly())
+                st2.facts.add_conditional(some, itv.fields[1].poly() - cl)
             return res
         if ctx.callee["name"] == "next" and isinstance(itv, Agg) and itv.name == "core::iter::filter" and len(itv.fields) == 2:
             # core::iter::Filter: every item it yields satisfies the predicate
@@ -1148,6 +1157,34 @@ class Summaries:
             del ex.terminated[n_term:]
             del ex.notes[n_notes:]
         return ok
+
+    def take_next(self, ctx, st, itv):
+        """Take::next: nothing once the limit is used up (the inner iterator is not touched), otherwise one inner
+        `next` and the limit goes down by one"""
+        ex = ctx.ex
+        p = ctx.args[0]
+        inner = itv.fields[0]
+        if not isinstance(inner, (Agg, Ptr)):
+            return None
+        n = itv.fields[1]
+        dt = ex.normalize(ctx.dest_ty) if ctx.dest_ty is not None else None
+        left = ge0(n.poly() - 1, st.facts)
+        out = []
+        s0 = st.fork()
+        if s0.facts.assume(left, 0):
+            out.append((s0, Agg("adt", OPTION, 0, [], dt)))
+        if not st.facts.assume(left, 1):
+            return out
+        recv = inner if isinstance(inner, Ptr) else Ptr(p.root, tuple(p.path) + (("f", 0, None),), None, getattr(inner, "ty", None), True)
+        ity = recv.pty if isinstance(inner, Ptr) and recv.pty is not None else getattr(inner, "ty", None)
+        r2 = dict(ctx.r)
+        if ity is not None:
+            r2["self_ty"] = ity
+            r2["args"] = [ity]
+        ex.write(st, p.root, tuple(p.path) + (("f", 1, None),), IntV(n.bits, n.signed, p=n.poly() - 1), None)
+        c2 = type(ctx)(ex, ctx.fr, ctx.callee, r2, [recv], ctx.dest_ty, ctx.span, ctx.key)
+        out.extend(self.s_iter_next(c2, st))
+        return out
 
     def adaptor_next(self, ctx, st, itv):
         """Map / Copied / Cloned::next over an iterator that is not modelled exactly: one `next` of the inner iterator
